@@ -646,3 +646,12 @@ UNITS["Quote.tailguard"] = dict(file=QI, anchor=r"char tmp_src\[VEC_LEN \* 2\];"
 
 # Quote's tail mask statement as a verbatim fragment
 UNITS["Quote.tailmask"] = dict(file=QI, anchor=r"mm = CopyAndGetEscapMask\(src_r, dst\) &", kind="span", end=r";")
+
+UNITS["DNode.findMemberImpl"] = dict(
+    file="include/sonic/dom/dynamicnode.h", anchor=r"sonic_force_inline MemberIterator findMemberImpl\(const char\* key,", cname="DNode_findMemberImpl", rtype="MemberIterator", nloops=1,
+    self="DNodeStub", rules=[("this-begin", r"this->MemberBegin\(\)", "DN_MemberBegin(self)"), ("this-end", r"this->MemberEnd\(\)", "DN_MemberEnd(self)"),
+           ("name-sv", r"it->name\.GetStringView\(\)", "it->name_sv"), ("m-size", r"\.size\(\)", ".size_"), ("m-data", r"\.data\(\)", ".data_"),
+           ("getmap", r"\bgetMap\(\)", "DN_getMap(self)"), ("frommap", r"findFromMap\(StringView\(key, len\)\)", "DN_findFromMap(self, key, len)"),
+           ("sv-ctor2", r"findMemberImpl\(StringView\(key, len\)\)", "DN_findMemberSV(self, key, len)")],
+    autos={"it": "MemberIterator", "e": "MemberIterator", "name_sv": "StringView"},
+    must_fire=["this-begin", "this-end", "name-sv", "getmap"])
